@@ -69,7 +69,32 @@ def check(src):
     return None
 
 
+def check_c_size(widths):
+    """C14, C plug-in: the registered size rule rejects exactly the flat numeric structs wider than 64 bits"""
+    import fcp_can_c
+    from fcp.verifier import make_general_verifier
+    fields = " ".join(f"f{i} @{i}: u{w}," for i, w in enumerate(widths))
+    src = f'struct A {{ {fields} }}\nimpl can for A {{ id: 1, device: "ecu", }}'
+    fcp = get_fcp_from_string('version: "3"\n' + src + "\n", Logger({})).unwrap()
+    v = make_general_verifier()
+    fcp_can_c.Generator().register_checks(v)
+    try:
+        r = v.verify(fcp)
+        rejected = r.is_err()
+    except Exception as e:
+        return {"schema": src, "can_c": True, "widths": widths, "check": "the C plug-in's checks raised instead of returning a verdict", "observed": repr(e)}
+    if rejected != (sum(widths) > 64):
+        return {"schema": src, "can_c": True, "widths": widths, "check": "C plug-in size rule: rejected iff more than 64 bits",
+                "bits": sum(widths), "rejected": rejected}
+    return None
+
+
 def search(pid, seed, tier, skip):
+    if pid == "C14":
+        for widths in ([32, 32], [32, 32, 1], [32, 32, 4], [32, 32, 7], [64, 8], [8] * 9, [63, 1], [33, 32], [16, 16, 16, 16, 8]):
+            f = check_c_size(widths)
+            if f:
+                return {"failure": f}
     n = 0
     for src in SCHEMAS + EXTRA:
         n += 1
@@ -84,6 +109,7 @@ if __name__ == "__main__":
     if cmd == "search":
         print(json.dumps(search(sys.argv[2], int(sys.argv[3]), sys.argv[4], sys.argv[5:]), default=str))
     elif cmd == "replay":
-        print(json.dumps({"fails": check(json.loads(sys.argv[2])["schema"]) is not None}))
+        rec = json.loads(sys.argv[2])
+        print(json.dumps({"fails": (check_c_size(rec["widths"]) if rec.get("can_c") else check(rec["schema"])) is not None}))
     elif cmd == "witness":
         print(json.dumps({"fails": False}))
